@@ -1914,7 +1914,7 @@ def part_plt(ctx, h, objdir):
     sh(["g++", "-pg", "-O0", "-fPIC", "-shared", "-o", extra, "t.cc", "-ldl"], cwd=w, check=True)
     label_files = part_labels(ctx, h, objdir, w)
     part_elftables(ctx, h, objdir, [os.path.join(w, c[0]) for c in cases[:ctx.n(3, 30)]] + [extra, os.path.join(w, "noplt"), os.path.join(w, "noplt_pie")]
-                   + label_files)
+                   + label_files + part_far(ctx, h, objdir, w))
     # recordings: every call through a PLT slot is shown under the slot's name
     for name, exe, f, funcs, pie in recs_todo:
         d = os.path.join(w, "data-" + name)
@@ -2198,6 +2198,81 @@ def part_labels(ctx, h, objdir, w):
                 ctx.violation("a function that follows a label / size-0 symbol of the same address is not shown by name "
                               "(recording of a program with assembler labels)",
                               {"part": "T", "exe": name, "source": src, "raw": raw, "missing": missing, "replay": rout[-1500:]}, True)
+    return files
+
+
+
+# a non-PIE executable that exports its functions (-rdynamic) and spans more than 4 MiB: one function sits at the
+# module-relative offset that equals the ABSOLUTE address of an exported one (update_symtab_using_dynsym must look the
+# dynamic symbols up at st_value - first PT_LOAD address)
+F_SRC = r"""
+#include <stdio.h>
+volatile long c10f_sink;
+#define NOINLINE __attribute__((noinline))
+NOINLINE int c10f_near_one(int x) { c10f_sink += x; return x + 1; }
+NOINLINE int c10f_near_two(int x) { return c10f_near_one(x) * 2; }
+%(extra)s
+__attribute__((noinline, section(".fartext"))) int c10f_far_victim(int x)
+{
+	asm volatile(".skip %(skip)s, 0x90");
+	return x - 1;
+}
+int main(void)
+{
+	int r = c10f_near_two(1);
+	r += c10f_far_victim(r);
+	r += c10f_near_one(r);
+	%(calls)s
+	return r == 12345;
+}
+"""
+
+
+def part_far(ctx, h, objdir, w):
+    rng = ctx.rng
+    uft = os.path.join(objdir, "uftrace")
+    files = []
+    for k in range(ctx.n(2, 6)):
+        pie = (k % 2 == 1)
+        nextra = rng.randrange(0, 4)
+        extra = "\n".join("NOINLINE int c10f_more%d(int x) { c10f_sink += x; return x ^ %d; }" % (i, i) for i in range(nextra))
+        calls = " ".join("r += c10f_more%d(r);" % i for i in range(nextra))
+        name = "far%d" % k
+        open(os.path.join(w, name + ".c"), "w").write(F_SRC % {"extra": extra, "calls": calls, "skip": rng.choice(["0x3000", "0x2000", "0x5000"])})
+        start = rng.choice(["0x801000", "0x800000"])
+        fl = ["-fPIE", "-pie"] if pie else ["-fno-pie", "-no-pie"]
+        sh(["gcc", "-pg", "-O0", "-rdynamic", "-Wl,--section-start=.fartext=" + start] + fl + ["-o", name, name + ".c"], cwd=w, check=True)
+        path = os.path.join(w, name)
+        files.append(path)
+        ctx.case(key=("T", "far", name, pie, start, nextra), tags=["T:far-section(>4MiB)", "T:rdynamic", "T:far-pie" if pie else "T:far-non-pie"], size=4 + nextra)
+        d = os.path.join(w, "data-" + name)
+        rc, out, err = sh(["timeout", "40", uft, "record", "--no-pager", "--no-event", "--libmcount-path=" + objdir, "-d", d, "./" + name],
+                          timeout=60, cwd=w)
+        if rc == 124 or not os.path.exists(os.path.join(d, "task.txt")):
+            ctx.broken("far(%s): uftrace record failed (rc=%d): %s" % (name, rc, (out + err)[-300:]))
+            continue
+        rc, rout, rerr = datadir.uftrace(objdir, "replay", d, ["-f", "tid,addr,time,module", "--demangle=no"])
+        recs = parse_replay_fields(rout)
+        truth = nm_funcs(path)
+        base = 0
+        if pie:
+            for fn in os.listdir(d):
+                if fn.endswith(".map"):
+                    for l in open(os.path.join(d, fn)):
+                        if l.split()[-1] == path or (len(l.split()) > 5 and l.split()[5] == path):
+                            base = int(l.split("-")[0], 16)
+                            break
+        wrong = []
+        for tid, addr, t, mod, nm in recs:
+            hit = [n for a, sz, n in truth if base + a <= addr < base + a + sz]
+            if hit and nm != hit[0]:
+                wrong.append(["%x" % addr, nm, hit[0]])
+        seen = set(r[4] for r in recs)
+        if "c10f_far_victim" not in [n for a, sz, n in truth] or not any(base + a <= r[1] < base + a + sz for r in recs for a, sz, n in truth if n == "c10f_far_victim"):
+            ctx.broken("far(%s): no record inside c10f_far_victim" % name, rout[-1200:])
+        if wrong:
+            ctx.violation("a function of a large non-PIE/PIE executable with exported symbols is shown under another function's name",
+                          {"part": "T", "exe": name, "pie": pie, "section_start": start, "wrong": wrong[:6], "replay": rout[-1500:]}, True)
     return files
 
 
